@@ -1,7 +1,7 @@
 #!/bin/sh
 # tools/keep-seed.sh <seed-id> <property> <needs...>   (after tools/verify-seed.sh said ok)
 ID="$1"; PROP="$2"; shift 2; NEEDS="$*"
-OUT="/tmp/seed-$ID-out"; D="/verif/seeded/$ID"
+OUT="${SEED_OUT:-/tmp/seed-$ID-out}"; D="/verif/seeded/$ID"
 mkdir -p "$D"; cp "$OUT/patch.diff" "$D/"; cp "$OUT"/*_test.go "$D/" 2>/dev/null; cp "$OUT/notes.md" "$D/agent-notes.md" 2>/dev/null
 python3 - "$ID" "$PROP" "$NEEDS" <<'PY'
 import json,sys,glob,os
